@@ -58,6 +58,21 @@ def inp_mix_inter(n):
     return w
 
 
+# many rules of which a longer input uses more: the number of distinct set cores grows with the input (as with a big
+# grammar on real code); statement j begins with keyword j
+NKEY = 2048
+KEYWORDS = {'terms': [('x', 120), (';', 59)] + [('k%d' % j, 1000 + j) for j in range(NKEY)],
+            'rules': [('P', ['SL'], None, 0, [0]), ('SL', ['SL', 'ST'], 'sl', 0, [0, 1]), ('SL', ['ST'], None, 0, [0])] +
+                     [('ST', ['k%d' % j, 'x', ';'], 'st', 0, [0]) for j in range(NKEY)]}
+
+
+def inp_keywords(n):
+    w = []
+    for j in range(max(1, n // 3)):
+        w += [1000 + j % NKEY, 120, 59]
+    return w
+
+
 FAM = [('list', LIST, inp_list), ('expr', EXPR, inp_expr), ('stmts', STMTS, inp_stmts)]
 
 # envelopes calibrated on the pinned tree (observed maxima: 392 bytes, 9.5 searches, 12.4 collisions per token at 64k)
@@ -82,6 +97,7 @@ def run(pid, tier, seed, replay=None):
     # the same statements block-wise and interleaved: identical sets must be found again, not rebuilt, whatever the order
     runs += [('mix/block', MIX, inp_mix_block, la, 1, [s for s in sizes if s <= 32000]) for la in (0, 1, 2)]
     runs += [('mix/inter', MIX, inp_mix_inter, la, 1, [s for s in sizes if s <= 32000]) for la in (0, 1, 2)]
+    runs += [('keywords', KEYWORDS, inp_keywords, la, 1, [768, 1536, 3072, 6144]) for la in (0, 1, 2)]
     for name, g, mk, la, one, szs in runs:
             for n in szs:
                 w = mk(n)
@@ -113,7 +129,8 @@ def run(pid, tier, seed, replay=None):
         d['sets'] = cs[1]['stat'][2]
         table.append({'grammar': name, 'la': la, 'tokens': ln, **d})
         for k, (per, const) in ENV.items():
-            if d[k] > per * ln + const:
+            # (the envelopes are those of the small grammars; the keyword grammar predicts 2048 rules at every statement)
+            if name != 'keywords' and d[k] > per * ln + const:
                 chk.violation(sig % ('envelope-' + k), '%s: %d for %d tokens exceeds the linear envelope %d*n+%d' % (k, d[k], ln, per, const), rep)
         # identical sets are found again rather than rebuilt: on these repetitive inputs a fixed share of the tokens
         # is served by the goto cache at every lookahead level (observed on the pinned tree: 0.5 n, 0.25 n for the
@@ -123,10 +140,16 @@ def run(pid, tier, seed, replay=None):
         prev = series.get(key)
         if prev is not None:
             pn, pd = prev
-            if pd['cores'] != d['cores']:
+            if pd['cores'] != d['cores'] and name != 'keywords':
                 chk.violation(sig % 'cores', 'number of unique set cores grows with the input (%d at %d tokens, %d at %d): identical sets are rebuilt, not found again' % (
                     pd['cores'], pn, d['cores'], ln), rep)
-            if pn >= 8000:
+            if name == 'keywords':
+                # the number of set cores grows with the input here: work per new core must not grow with their number
+                for k, lim, frm in (('bytes', 2.6, 1500), ('searches', 2.6, 1500), ('collisions', 3.2, 3000)):
+                    if pn >= frm and pd[k] > 0 and d[k] > lim * pd[k]:
+                        chk.violation(sig % ('ratio-' + k), '%s grows by a factor %.2f when the input doubles (%d -> %d tokens, %d -> %d set cores)' % (
+                            k, d[k] / pd[k], pn, ln, pd['cores'], d['cores']), rep)
+            elif pn >= 8000:
                 for k, lim in RATIO.items():
                     if pd[k] > 0 and d[k] > lim * pd[k]:
                         chk.violation(sig % ('ratio-' + k), '%s grows by a factor %.2f when the input doubles (%d -> %d tokens)' % (k, d[k] / pd[k], pn, ln), rep)
